@@ -242,6 +242,27 @@ def setLink (s : CState) (k v : Nat) (h : Heap π ν) : Heap π ν :=
 def subsetView (s : CState) (h : Heap π ν) (i : Nat) : List DescV × List (Nat × Nat) :=
   (getList h (s.descAll.getD i 0), getLinks h (s.linkAll.getD i 0))
 
+/-- what the coder does with the per-subset containers while it walks the template -/
+inductive CAct where
+  | app (it : Item)            -- `state.decoded_descriptors.append(d)`
+  | link (k v : Nat)           -- `state.bitmap_links[k] = v`
+  | switch (i : Nat)           -- `state.switch_subset_context(i)`
+
+def cStep (x : CState × Heap π ν) : CAct → CState × Heap π ν
+  | .app it => (x.1, appendDesc x.1 it x.2)
+  | .link k v => (x.1, setLink x.1 k v x.2)
+  | .switch i => (x.1.switch i, x.2)
+
+def cRun (x : CState × Heap π ν) : List CAct → CState × Heap π ν
+  | [] => x
+  | a :: as => cRun (cStep x a) as
+
+/-- the per-subset cells are distinct cells holding lists / dicts (what `[[] for _ in range(n)]`
+    establishes and every coder action keeps) -/
+def CWf (s : CState) (h : Heap π ν) : Prop :=
+  s.descAll.Nodup ∧ s.linkAll.Nodup ∧ (∀ r ∈ s.descAll, r ∉ s.linkAll) ∧
+  (∀ r ∈ s.descAll, ∃ is, h.lookup r = some (.lst is)) ∧ (∀ r ∈ s.linkAll, ∃ l, h.lookup r = some (.links l))
+
 end CoderState
 
 /-! ### the process -/
